@@ -66,6 +66,12 @@ type c20Op struct {
 	SleepNS int64  `json:"sleep_ns,omitempty"` // sleep: advance of the fake clock
 	Park    int    `json:"park,omitempty"`     // api-race: park this call before its k-th mutex acquisition (lock-instrumented build)
 	Hold    int    `json:"hold,omitempty"`     // ... and resume it after this many further calls of other clients have started
+	N       int    `json:"n,omitempty"`        // api-race flood: Inc at one instant for this many further, distinct addresses (c20FloodAddr)
+}
+
+// c20FloodAddr is the k-th address of a flood (many distinct clients inside one interval: the counter table grows).
+func c20FloodAddr(k int) string {
+	return fmt.Sprintf("10.%d.%d.%d", 64+(k>>16)&0x3f, (k>>8)&0xff, k&0xff)
 }
 
 type C20 struct{}
@@ -357,10 +363,32 @@ func (C20) Gen(rng *core.Rng, tier string, idx int) *core.Scenario {
 	if w.Kind == "api-race" {
 		T := int64(0) // instant of execution
 		lastNow := make([]int64, w.Clients)
+		flooded := false
 		for i := 0; i < nOps; i++ {
 			op := c20Op{Client: rng.Intn(w.Clients)}
 			a := core.Pick(rng, addrs)
 			op.IP = a.String()
+			if !flooded && i > 2 && rng.Chance(0.012) {
+				// many distinct addresses inside the current interval, then a known address again at the same instant:
+				// its counter must have survived whatever the table does with that many entries
+				flooded = true
+				now := T
+				if now < lastNow[op.Client] {
+					now = lastNow[op.Client]
+				}
+				lastNow[op.Client] = now
+				fl := c20Op{Client: op.Client, Op: "flood", NowNS: now, N: core.Pick(rng, []int{300, 1100, 4200, 9000, 17000, 70000})}
+				for k := 0; k < fl.N; k++ {
+					ip := c20FloodAddr(k)
+					fa, _ := c20Canon(ip)
+					m.inc(now, ip, fa)
+				}
+				sc.AddOp(fl)
+				after := c20Op{Client: op.Client, Op: "inc", IP: op.IP, NowNS: now}
+				m.inc(now, after.IP, a)
+				sc.AddOp(after)
+				continue
+			}
 			switch k := rng.Intn(20); {
 			case k < 12:
 				op.Op = "inc"
@@ -469,6 +497,12 @@ type c20Obs struct {
 	body   string
 	panicV string
 	frame  string
+	flood  []c20FloodRes
+}
+
+type c20FloodRes struct {
+	nr, maxNr int
+	ok        bool
 }
 
 func (p C20) Run(t *testing.T, sc *core.Scenario, res *core.Result) {
@@ -880,7 +914,7 @@ func c20RunAPI(w c20World, ops []c20Op, res *core.Result) {
 	var idxs []int
 	for i, op := range ops {
 		switch op.Op {
-		case "inc", "count", "endtime", "read":
+		case "inc", "count", "endtime", "read", "flood":
 			idxs = append(idxs, i)
 		}
 	}
@@ -890,6 +924,13 @@ func c20RunAPI(w c20World, ops []c20Op, res *core.Result) {
 		switch op.Op {
 		case "inc":
 			o.nr, o.maxNr, o.ok = il.Inc(c20Base.Add(time.Duration(op.NowNS)), op.IP)
+		case "flood":
+			o.flood = make([]c20FloodRes, op.N)
+			at := c20Base.Add(time.Duration(op.NowNS))
+			for k := range o.flood {
+				f := &o.flood[k]
+				f.nr, f.maxNr, f.ok = il.Inc(at, c20FloodAddr(k))
+			}
 		case "count":
 			o.nr = il.Count(op.IP)
 		case "endtime":
@@ -920,6 +961,22 @@ func c20RunAPI(w c20World, ops []c20Op, res *core.Result) {
 			res.Event("%d c%d inc %s now=%d -> %d %d %v", i, op.Client, op.IP, op.NowNS, o.nr, o.maxNr, o.ok)
 			before := ck.restarts
 			ck.request(i, op.NowNS, op.IP, "api", o.nr, o.ok, o.maxNr)
+			if ck.restarts > before {
+				restartBy[op.Client] = true
+			}
+			if op.NowNS > lastT {
+				lastT = op.NowNS
+			}
+		case "flood":
+			res.Event("%d c%d flood %d addresses now=%d", i, op.Client, op.N, op.NowNS)
+			res.Count("fault.address-flood")
+			if op.N > 8000 {
+				res.Count("probe.flood-over-8000-addresses")
+			}
+			before := ck.restarts
+			for k, f := range o.flood {
+				ck.request(i, op.NowNS, c20FloodAddr(k), "api", f.nr, f.ok, f.maxNr)
+			}
 			if ck.restarts > before {
 				restartBy[op.Client] = true
 			}
